@@ -107,6 +107,10 @@ class Ref:
     def __eq__(self, other):
         return isinstance(other, Ref) and (self.oid, self.fmt, self.dbname) == (other.oid, other.fmt, other.dbname)
 
+    def cls_name(self):
+        c = self.cls
+        return None if c is None else (getattr(c, '__module__', None), getattr(c, '__name__', None)) if isinstance(c, type) else c
+
     def __hash__(self):
         return hash((self.oid, self.fmt, self.dbname))
 
@@ -134,13 +138,33 @@ def _pid(o):
     return None
 
 
+_GONE_MOD = 'zv_gone_refmod'
+# class of referenced objects that can be named in a record but not imported where the record is read (a storage server
+# without the application code): its module exists only while a record is being pickled
+GoneRef = type('GoneRef', (persistent.Persistent,), {'__module__': _GONE_MOD})
+
+
+class gone_module:
+    def __enter__(self):
+        import sys
+        import types
+        m = types.ModuleType(_GONE_MOD)
+        m.GoneRef = GoneRef
+        sys.modules[_GONE_MOD] = m
+
+    def __exit__(self, *a):
+        import sys
+        sys.modules.pop(_GONE_MOD, None)
+
+
 def make_record(cls, state, protocol=3):
     """class pickle + state pickle; Ref instances inside state become persistent references"""
     f = io.BytesIO()
     p = zp.Pickler(f, protocol)
     p.persistent_id = _pid
-    p.dump(cls)
-    p.dump(state)
+    with gone_module():
+        p.dump(cls)
+        p.dump(state)
     return f.getvalue()
 
 
